@@ -19,6 +19,10 @@ class Inexact(Exception):
     pass
 
 
+class Undefined(Exception):
+    """The NumPy reading is not defined on this input (an integer index outside the extent)."""
+
+
 class Interp:
     def __init__(self, prog, helpers):
         self.prog = prog
@@ -115,7 +119,31 @@ class Interp:
             res = sub.run(args, kws)
             self.exact = self.exact and sub.exact
             return res[0] if len(res) == 1 else tuple(res)
+        if k == "sub":
+            # NumPy basic indexing: integers and slices only (Python's slice semantics: clamping, negative = from the end)
+            base = np.asarray(self.default_tensor(self.ev(e[1], env)))
+            idx = []
+            for it in e[2]:
+                if it[0] == "i":
+                    idx.append(int(it[1]))
+                elif it[0] == "all":
+                    idx.append(slice(None))
+                else:
+                    idx.append(slice(*[None if c is None else self.index_int(self.ev(c, env)) for c in it[1:4]]))
+            try:
+                return self.note(np.asarray(base[tuple(idx)]))
+            except IndexError as err:
+                raise Undefined(str(err)) from None
         raise TypeError(e)
+
+    def index_int(self, v):
+        """A slice bound: a Python int, or an INT64 scalar tensor read as one (operator.index)."""
+        if isinstance(v, bool) or isinstance(v, float):
+            raise TypeError(f"slice bound {v!r}")
+        a = np.asarray(v)
+        if a.dtype != np.int64 and not isinstance(v, int):
+            raise TypeError(f"slice bound of dtype {a.dtype}")
+        return int(a.reshape(()))
 
     def binop(self, op, a, b):
         if op == "**":
@@ -305,9 +333,17 @@ def gen_inputs(prog, rng, n_sets=3):
     """>= 3 input sets: (tensors, attrs).  Common shape of rank `rank` with a size-0 / size-1 / ordinary dim; edge values."""
     rank = prog["rank"]
     sets = []
+    mins = prog.get("min_dims")
     for k in range(n_sets):
         if rank == 0:
             shape = ()
+        elif mins is not None:
+            # subscript stream: extents 2..4, never below what the constant integer indices of the program need
+            dims = [max(rng.choice([2, 3, 3, 4]), mins[j]) for j in range(rank)]
+            small = [j for j in range(rank) if mins[j] <= (1 if k % 3 == 1 else 0)]
+            if k % 3 in (1, 2) and small:
+                dims[rng.choice(small)] = 1 if k % 3 == 1 else 0
+            shape = tuple(dims)
         else:
             dims = [rng.choice([2, 3]) for _ in range(rank)]
             if k % 3 == 1:
